@@ -40,7 +40,7 @@ RULE = (
     "every (n,3) face array over 4 vertices with n<=2 (4160 arrays, complete in both tiers), n=3 "
     "over 4 vertices (sampled in quick; enumerated in shards in thorough as far as the budget "
     "reaches), sampled arrays over 5 vertices with 2-4 faces, generated closed integer meshes "
-    "(single / multi body), random soups up to 200 faces with injected duplicate / reversed / "
+    "(single / multi body; each also with 1-3 unreferenced vertices inserted into the vertex array), random soups up to 200 faces with injected duplicate / reversed / "
     "degenerate faces and unreferenced vertices, fans, bow-tie, Moebius strip, open grid, and soups "
     "relabelled onto vertex ids around 2^15, 2^20, 2^31, 2^32 (free functions only). One case = one "
     "(vertex count, face array); distinct = distinct (class tag, vertex count, face bytes); trivial "
@@ -81,7 +81,11 @@ ASSUMPTIONS = [
     "directed edges, self-pairs dropped",
     "facets: the coplanarity predicate is taken from mesh.face_adjacency_radius / span (judged elsewhere); "
     "only the grouping of the selected adjacency rows is judged here",
-    "angle defects: integer-coordinate closed meshes, float tolerance 1e-6 on the sum",
+    "angle defects: integer-coordinate closed meshes (edges >= 1, angles far above tol.merge), with and "
+    "without unreferenced vertices in the vertex array, float tolerance 1e-6 on the sum; the value reported "
+    "for one unreferenced vertex is not judged (only the sum is), and embeddings that are degenerate at the "
+    "library's documented resolution (edge lengths below util.TOL_ZERO = 1e-13, angles below tol.merge = 1e-8) are not judged: "
+    "the statement quantifies over face arrays, not over coordinates",
 ]
 EXHAUSTIVE = {"quick": False, "thorough": False}
 
@@ -654,13 +658,29 @@ def check_mesh(run, tag, F, nv, V=None, closed=False, facets=False, split_defaul
                     cr = [u[1] * w[2] - u[2] * w[1], u[2] * w[0] - u[0] * w[2], u[0] * w[1] - u[1] * w[0]]
                     ang[f[k]] += math.atan2(math.sqrt(sum(c * c for c in cr)), sum(u[i] * w[i] for i in range(3)))
             per = [2 * math.pi - a for a in ang]
+            # The statement fixes the SUM (2*pi*chi, chi counted on the faces: unreferenced vertices
+            # are not part of the surface).  It says nothing about the value reported for one
+            # unreferenced vertex, so the per-vertex comparison covers referenced vertices only;
+            # whatever the unreferenced ones report must leave the sum alone.
+            unref = [v for v in range(nv) if v not in R.referenced]
+            opt = "unreferenced_vertices" if unref else None
+            tol_sum = 1e-6 * max(1, nv)
             for route, arr in (("property", d), ("free", d2)):
                 if arr.shape != (nv,):
-                    J.bad("vertex_defects", route, "shape", "one defect per vertex expected")
-                elif abs(float(arr.sum()) - want) > 1e-6 * max(1, nv):
-                    J.bad("vertex_defects", route, "sum_not_2pi_chi", "angle defects do not sum to 2*pi*Euler", got=float(arr.sum()), want=want)
-                elif max(abs(float(x) - y) for x, y in zip(arr, per)) > 1e-6:
-                    J.bad("vertex_defects", route, "per_vertex", "a vertex defect differs from 2*pi - sum of incident angles")
+                    J.bad("vertex_defects", route, "shape", "one defect per vertex expected", opt=opt)
+                    continue
+                gap = float(arr.sum()) - want
+                if abs(gap) > tol_sum:
+                    sym = "sum_not_2pi_chi"
+                    if unref and abs(gap - 2 * math.pi * len(unref)) <= tol_sum:
+                        sym = "sum_exceeds_2pi_chi_by_2pi_per_unreferenced_vertex"
+                    J.bad("vertex_defects", route, sym, "angle defects do not sum to 2*pi*Euler", opt=opt,
+                          got=float(arr.sum()), want=want, unreferenced=unref)
+                elif max(abs(float(arr[v]) - per[v]) for v in sorted(R.referenced)) > 1e-6:
+                    J.bad("vertex_defects", route, "per_vertex", "a vertex defect differs from 2*pi - sum of incident angles",
+                          opt=opt)
+            if unref:
+                run.count("defect_checks_with_unreferenced_vertices")
             run.count("defect_checks")
 
         J.guard("vertex_defects", "property", defects)
@@ -708,6 +728,36 @@ def spice(rng, F, nv):
     return np.array(F, dtype=np.int64).reshape(-1, 3), nv
 
 
+def with_unreferenced(rng, V, F):
+    """
+    The same surface with 1-3 vertices that no face uses, placed at the front, in the middle or
+    at the end of the vertex array (faces relabelled accordingly).  Their coordinates are
+    integer points outside the bounding box; now and then one sits exactly on a referenced
+    vertex (an unmerged duplicate position).
+    """
+    V = np.asarray(V, dtype=np.float64)
+    F = np.asarray(F, dtype=np.int64)
+    k = int(rng.integers(1, 4))
+    total = len(V) + k
+    where = int(rng.integers(4))
+    if where == 0:
+        slots = list(range(k))
+    elif where == 1:
+        slots = list(range(total - k, total))
+    else:
+        slots = sorted(int(x) for x in rng.choice(total, size=k, replace=False))
+    keep = np.array([i for i in range(total) if i not in set(slots)], dtype=np.int64)
+    Vn = np.zeros((total, 3), dtype=np.float64)
+    Vn[keep] = V
+    hi = V.max(axis=0)
+    for j, sl in enumerate(slots):
+        if j == 0 and rng.random() < 0.25:
+            Vn[sl] = V[int(rng.integers(len(V)))]
+        else:
+            Vn[sl] = hi + [7 + 3 * j, 5 + j, 11 + 2 * j]
+    return Vn, keep[F]
+
+
 def structured(run):
     rng = run.rng
     n_closed = 10 if run.tier == "quick" else 40
@@ -723,6 +773,12 @@ def structured(run):
         F2[k] = F2[k][::-1]
         check_mesh(run, "closed_rewound:" + tag, F2, len(V), V=V, facets=True)
         check_mesh(run, "closed_minus_face:" + tag, np.delete(F, k, axis=0), len(V), V=V)
+        # the same closed surface inside a vertex array that also holds unreferenced vertices:
+        # every count is made on the faces, so nothing may change - in particular the angle
+        # defects still sum to 2*pi*chi
+        Vu, Fu = with_unreferenced(rng, V, F)
+        check_mesh(run, "closed:+unreferenced:" + tag, Fu, len(Vu), V=Vu, closed=True, facets=True, split_default=True)
+        run.count("closed_meshes_with_unreferenced_vertices")
         if run.out_of_time(0.25):
             break
     # closed bodies that touch without sharing a face: glued at ONE vertex (vertex-connected,
